@@ -118,7 +118,7 @@ def parse_sidecar(path):
             elif kw == 'loop':
                 sig, tail = qstr(rest)
                 ords = tail.split()
-                lp = dict(sig=sig, ord=int(ords[0]) if ords else 0, inv=[], decreases=[], ensures=[])
+                lp = dict(sig=sig, ord=int(ords[0]) if ords else 0, inv=[], inv_eb=[], decreases=[], ensures=[])
                 cur.loops.append(lp)
                 sink = None
             elif kw == 'hint':
@@ -145,10 +145,10 @@ def parse_sidecar(path):
             kw = line.split()[0]
             rest = line[len(kw):].strip()
             lp = cur.loops[-1]
-            if kw == 'invariant':
+            if kw in ('invariant', 'invariant_except_break'):
                 name = rest.split()[0] if rest and not rest.startswith('[') else 'inv%d' % len(lp['inv'])
                 ent = (name, parse_tags(rest), [])
-                lp['inv'].append(ent)
+                lp['inv' if kw == 'invariant' else 'inv_eb'].append(ent)
                 sink = ent[2]
             elif kw == 'decreases':
                 sink = lp['decreases']
@@ -362,6 +362,12 @@ def inject(spec, text, contract, warnings):
                 newl.append((l, m))
                 continue
             newl.append((mm.group(1) + mm.group(2), m))
+            if lp['inv_eb']:
+                newl.append((mm.group(1) + '    invariant_except_break', dict(base, kind='invariant', name='loop %s#%d' % (sig_l, k))))
+                for name, tags, lines in lp['inv_eb']:
+                    meta = dict(fn=fnm, kind='invariant', name='%s#%d:%s' % (sig_l, k, name), tags=tags if tags is not None else spec.tags)
+                    for x in lines:
+                        newl.append((mm.group(1) + '        ' + x, meta))
             if lp['inv']:
                 newl.append((mm.group(1) + '    invariant', dict(base, kind='invariant', name='loop %s#%d' % (sig_l, k))))
                 for name, tags, lines in lp['inv']:
@@ -681,6 +687,8 @@ CONST_ENSURES = {
 
 
 def hoisted_const(name, ty, init):
+    if re.fullmatch(r'[0-9][0-9a-fA-Fx_]*', init):
+        return 'pub const %s: %s = %s;' % (name, ty, init)
     if name not in CONST_ENSURES:
         raise AnchorLost('fn-local const %s has no stated value contract' % name)
     return '#[verifier::external_body]\npub exec const %s: %s ensures %s { %s }' % (name, ty, CONST_ENSURES[name], init)
